@@ -3,14 +3,14 @@
    execution additionally splits on the result of [find_fit], and Forall facts about the bucket list are
    instantiated at every bucket the execution has met. *)
 From Lasso Require Import Base Arena ArenaProofs.
-From LassoGen Require Import GenPrelude GenIR GenIRLf GenTactics.
+From LassoGen Require Import GenPrelude GenIR GenRequest GenIRLf GenTactics.
 Open Scope N_scope.
 
 Ltac unfold_lf :=
   unfold run_lfun, run_lnew, as_str_result, as_unit_result, as_unit, as_num in *;
   repeat autounfold with arenagen in *;
-  unfold lf_store, lf_store_legacy, lf_store_gen, grow, lf_place, arena_new, set_limit in *;
-  rewrite ?lf_first_fit_find.
+  unfold lf_store, lf_store_legacy, lf_store_gen, grow, lf_place, arena_new, set_limit,
+         lf_alloc_request, grow_request, after_failed_alloc in *.
 
 Ltac lf_step :=
   match goal with
@@ -21,11 +21,18 @@ Ltac lf_step :=
   end.
 
 Ltac lf_exec :=
-  repeat (cbn; unfold alloc_spec, push_slice, final_arena; lf_step);
-  cbn; unfold alloc_spec, push_slice, final_arena, with_blocks, fresh_block; cbn.
+  repeat (cbn; unfold alloc_spec, ab_wc_spec, push_slice, final_arena; lf_step);
+  cbn; unfold alloc_spec, ab_wc_spec, push_slice, final_arena, with_blocks, fresh_block; cbn.
 
 (* every Forall fact about a list, instantiated at every known member of that list *)
 Ltac use_foralls :=
+  repeat match goal with
+  | H : In ?x ?l |- _ =>
+      lazymatch goal with
+      | _ : bcap x <= sum_N (map bcap l) |- _ => fail
+      | _ => pose proof (bcap_le_sum l x H)
+      end
+  end;
   repeat match goal with
   | F : Forall _ ?l |- _ =>
       repeat match goal with
@@ -45,7 +52,11 @@ Ltac lf_finish :=
   repeat match goal with
   | H : find_fit _ _ = Some _ |- _ => apply find_fit_spec in H
   end;
-  unfold lf_typed, store_dom, try_inc_pre, set_cap_pre in *; unfold_props; split_hyps;
+  leaf_intros;
+  repeat match goal with
+  | H : find_fit _ _ = Some _ |- _ => apply find_fit_spec in H
+  end;
+  unfold store_dom, try_inc_pre, set_cap_pre, ab_cap_max in *; unfold_props; split_hyps;
   cbn [bid bcap bused bdata blocks bucket_cap usage limit next_bid];
   rewrite ?repeat_length, ?N2Nat.id;
   first [ eq_close
@@ -53,6 +64,6 @@ Ltac lf_finish :=
         | idtac ].
 
 Ltac gen_lf_tac :=
-  intros; unfold_lf;
+  intros; unfold_lf; revert_requests; rewrite ?lf_first_fit_find;
   try match goal with s : str |- _ => case_string s end;
   lf_exec; lf_finish.
